@@ -153,6 +153,10 @@ theorem terrain_safe : entryOk entry_terrain_generate_terrain = true := by decid
 theorem bump_safe : entryOk entry_bump_bump = true := by decide +kernel
 theorem viewshed_safe : entryOk entry_viewshed_viewshed = true := by decide +kernel
 theorem a_star_safe : entryOk entry_pathfinding_a_star_search = true := by decide +kernel
+theorem summarize_terrain_safe : entryOk entry_analytics_summarize_terrain = true := by decide +kernel
+theorem polygonize_safe : entryOk entry_polygonize_polygonize = true := by decide +kernel
+theorem helpers_safe : [entry_convolution_calc_cellsize, entry_convolution_custom_kernel, entry_utils_get_xy_range,
+    entry_utils_calc_res, entry_utils_get_dataarray_resolution].all entryOk = true := by decide +kernel
 theorem local_safe : [entry_local_cell_stats, entry_local_combine, entry_local_lesser_frequency,
     entry_local_equal_frequency, entry_local_greater_frequency, entry_local_lowest_position,
     entry_local_highest_position, entry_local_popularity, entry_local_rank].all entryOk = true := by
